@@ -454,6 +454,16 @@ func flushLog() {
 			case v := <-logQueue:
 				v.writer.Write(v.value)
 			case <-syncDone.Done():
+				// write the entries that were queued before the flush was requested
+				for {
+					select {
+					case v := <-logQueue:
+						v.writer.Write(v.value)
+						continue
+					default:
+					}
+					break
+				}
 				asyncCancel()
 				return
 			}
